@@ -52,6 +52,55 @@ Fixpoint follow (ents : list entry) (fuel : nat) (tgt : str) : option str :=
 
 Definition alias_spec (ents : list entry) (tgt : str) : option str := follow ents (S (length ents)) tgt.
 
+(* ---- looking a field code up (common.c:_GD_FindField with dealias = 1,
+   _GD_FindFieldAndRepr).  "Aliases ... are in most ways indistinguishable from the
+   target's canonical name"; "if eeee is an alias of ffff then ffff/gggg, a metafield
+   of ffff, may be referred to as eeee/gggg as well": a code names the ultimate
+   target of the alias it spells, and <alias>/<subfield> names the subfield of the
+   alias's ULTIMATE target. *)
+Definition dealias (ents : list entry) (E : entry) : option str :=
+  match e_kind E with
+  | EAlias t => alias_spec ents t
+  | _ => Some (e_name E)
+  end.
+
+Definition lookup_code (ents : list entry) (c : str) : option str :=
+  match find_field c ents with
+  | Some E => dealias ents E
+  | None =>
+      (* not found: perhaps a subfield of an aliased field (common.c:252-262) *)
+      match split_first cSLASH (drop_dot c) with
+      | Some (p, sub) =>
+          match find_field p ents with
+          | Some P =>
+              match e_kind P with
+              | EAlias t =>
+                  match alias_spec ents t with
+                  | Some T => match find_field (T ++ cSLASH :: sub) ents with
+                              | Some E => dealias ents E
+                              | None => None
+                              end
+                  | None => None
+                  end
+              | _ => None
+              end
+          | None => None
+          end
+      | None => None
+      end
+  end.
+
+(* _GD_FindFieldAndRepr: a trailing .r .i .m .a .z is tried as representation
+   suffix first, the whole code second *)
+Definition lookup_repr (ents : list entry) (c : str) : option str :=
+  match strip_repr true c with
+  | (body, Some _) => match lookup_code ents body with
+                      | Some x => Some x
+                      | None => lookup_code ents c
+                      end
+  | (_, None) => lookup_code ents c
+  end.
+
 (* relational form *)
 Inductive chain (ents : list entry) : str -> str -> Prop :=
 | ch_refl : forall t, chain ents t t
